@@ -150,6 +150,12 @@ SPEC = {
                 "target": "self.current", "peel": [("arg", "sum", 0), ("elt", 0)],
                 "rename": {"self.dt": "dt", "self.spike_charge": "spike_charge", "inputs[0]": "x"},
                 "params": {"x": R, "spike_charge": R, "dt": R}},
+            "synparam_bounded_selector": {
+                "file": "inferno/neural/synapses/mixins.py", "cls": None, "method": "_synparam_at", "target": "bounded_selector", "nth": 1,
+                "rename": {"value.duration": "duration"}, "params": {"selector": R, "duration": R}},
+            "synparam_overbound": {
+                "file": "inferno/neural/synapses/mixins.py", "cls": None, "method": "_synparam_at", "target": "res", "nth": 3,
+                "params": {"selector": R, "bounded_selector": R, "tolerance": R, "res": R, "overbound": R}},
             "DeltaCurrent_spike_to_current": {
                 "file": "inferno/neural/synapses/current.py", "cls": "DeltaCurrent", "method": "__init__",
                 "nested": "spike_to_current", "target": "return",
